@@ -1182,6 +1182,24 @@ func (an *shapeAn) checkCall(sf *symFn, c *ssa.Call, pc *Sym, chain string) {
 		}
 		recv = cc.Args[0]
 		name = callee.Name()
+		// a method promoted from the embedded *antlr.BaseParserRuleContext: the node is the enclosing context
+		for {
+			fa, ok := recv.(*ssa.FieldAddr)
+			if !ok {
+				break
+			}
+			if _, emb := fieldOf(fa.X.Type(), fa.Field); !emb {
+				break
+			}
+			recv = fa.X
+		}
+		if u, ok := recv.(*ssa.UnOp); ok && u.Op == token.MUL {
+			if fa, ok := u.X.(*ssa.FieldAddr); ok {
+				if _, emb := fieldOf(fa.X.Type(), fa.Field); emb {
+					recv = fa.X
+				}
+			}
+		}
 	default:
 		if callee := cc.StaticCallee(); callee != nil && fullFuncName(callee) == "reflect.TypeOf" {
 			// used as reflect.TypeOf(x).String()? then x must not be nil
@@ -1601,6 +1619,27 @@ func (an *shapeAn) checkSlice(sf *symFn, x *ssa.Slice, pc *Sym, chain string) {
 	}
 	pos := an.p.InstrPos(x)
 	if !decided {
+		// a bound that is the plain result of a substring search is -1 when nothing is found: the search must be guarded
+		for _, bnd := range []*Sym{lo, hi} {
+			if bnd == nil || bnd.Op != "call" || !searchIndexCall(bnd.Name) || len(bnd.Kids) < 2 {
+				continue
+			}
+			guarded := false
+			key := bnd.String()
+			a0, a1 := bnd.Kids[0].String(), bnd.Kids[1].String()
+			pc.walk(func(t *Sym) {
+				if t.Op == "bin" && len(t.Kids) == 2 && (t.Kids[0].String() == key || t.Kids[1].String() == key) {
+					guarded = true
+				}
+				if (t.Op == "pred" || t.Op == "call") && strings.Contains(strings.ToLower(t.Name), "contains") && len(t.Kids) >= 2 && t.Kids[0].String() == a0 && t.Kids[1].String() == a1 {
+					guarded = true
+				}
+			})
+			if !guarded {
+				an.ob("E2.slice-bound", construct, Violated, "slice bounds can be out of range: the bound is the result of "+bnd.Name+", which is -1 when "+clip(a1, 40)+" does not occur in the text, and no test of that result (or of Contains) lies on the path ["+chain+"]", pos, false)
+				return
+			}
+		}
 		// bounds computed from other values (indexes returned by strings.Index…): out of the interval fragment
 		an.ob("E2.slice-bound", construct, Note, "bounds are not constants or len-relative; not decided", pos, false)
 		return
@@ -1890,3 +1929,12 @@ func isNilConst(v ssa.Value) bool {
 }
 
 var _ = token.NoPos
+
+func searchIndexCall(name string) bool {
+	switch name {
+	case "strings.Index", "strings.LastIndex", "strings.IndexByte", "strings.LastIndexByte", "strings.IndexRune", "strings.IndexAny", "strings.LastIndexAny",
+		"bytes.Index", "bytes.LastIndex", "bytes.IndexByte":
+		return true
+	}
+	return false
+}
